@@ -331,8 +331,11 @@ fn compare(mode: usize, order: &[usize], singles: &[RunOut], joint: &RunOut, ite
                 continue;
             }
             let pre = format!("{}/", it.dir);
-            let a: Vec<_> = joint.after.iter().filter(|(k, _)| k.starts_with(&pre)).collect();
-            let b: Vec<_> = singles[*i].after.iter().filter(|(k, _)| k.starts_with(&pre)).collect();
+            // the files of the item's directory, without those of another item's directory nested in it
+            let deeper: Vec<String> = items.iter().filter(|x| x.dir.len() > it.dir.len() && x.dir.starts_with(&pre)).map(|x| format!("{}/", x.dir)).collect();
+            let own = |k: &String| k.starts_with(&pre) && !deeper.iter().any(|d| k.starts_with(d));
+            let a: Vec<_> = joint.after.iter().filter(|(k, _)| own(k)).collect();
+            let b: Vec<_> = singles[*i].after.iter().filter(|(k, _)| own(k)).collect();
             if a != b {
                 f.push(("c15:file-bytes-differ-from-the-single-run".to_string(), it.rel()));
             }
@@ -456,6 +459,76 @@ fn overlapping(o: &mut Outcome, rng: &mut Rng, ctx: &Ctx, home: &Path, thorough:
             for (sig, detail) in fails {
                 let names: Vec<&str> = lines[*l].iter().map(|i| items[*i].file.as_str()).collect();
                 fail(o, &sig, format!("{} [overlapping module trees, mode {}, command line {:?}] {}", sig, MODES[*m].0, names, detail), json!({"files": all.iter().map(|(n, t)| json!({"name": n, "text": t})).collect::<Vec<_>>(), "mode": MODES[*m].0, "command_line": names}));
+            }
+        }
+        let _ = std::fs::remove_dir_all(&shared);
+    }
+    (direct, distinct)
+}
+
+/// Inputs of one invocation that live in NESTED directories with different configuration files: `p/rustfmt.toml` and
+/// `p/x.rs`, `p/n/rustfmt.toml` (or `.rustfmt.toml`, or none) and `p/n/y.rs`, `p/n/d/z.rs`, a sibling `p/s/w.rs`.  Each
+/// file is formatted under the nearest configuration file at or above it, whatever was formatted before it: the joint
+/// run in every order equals the single runs.
+fn nested(o: &mut Outcome, rng: &mut Rng, ctx: &Ctx, home: &Path, thorough: bool) -> (u64, u64) {
+    let mut direct = 0u64;
+    let mut distinct = 0u64;
+    let local = ["tab_spaces = 2\n", "max_width = 60\n", "hard_tabs = true\n", "tab_spaces = 8\nmax_width = 70\n", "brace_style = \"AlwaysNextLine\"\n"];
+    for k in 0..(if thorough { 16 } else { 4 }) {
+        let p = format!("np{}", k);
+        let mut tomls: Vec<usize> = (0..local.len()).collect();
+        for i in (1..tomls.len()).rev() {
+            tomls.swap(i, rng.below(i + 1));
+        }
+        // (directory, own configuration file)
+        let shape: Vec<(String, Option<String>)> = vec![
+            (p.clone(), if rng.chance(4, 5) { Some(local[tomls[0]].to_string()) } else { None }),
+            (format!("{}/n", p), if rng.chance(3, 4) { Some(local[tomls[1]].to_string()) } else { None }),
+            (format!("{}/n/d", p), if rng.chance(1, 3) { Some(local[tomls[2]].to_string()) } else { None }),
+            (format!("{}/s", p), if rng.chance(1, 2) { Some(local[tomls[3]].to_string()) } else { None }),
+        ];
+        let items: Vec<Item> = shape.iter().enumerate().map(|(i, (d, t))| Item { kind: "nested", dir: d.clone(), file: format!("f{}.rs", i), text: body(rng, &format!("n{}x{}", k, i)), toml: t.clone(), extra: vec![], missing: false }).collect();
+        let shared = ctx.fresh("np");
+        materialise(&items, &shared);
+        let n = items.len();
+        let mut single_jobs: Vec<(usize, usize)> = vec![];
+        for m in 0..MODES.len() {
+            for i in 0..n {
+                single_jobs.push((m, i));
+            }
+        }
+        let singles_flat: Vec<RunOut> = par_map(&single_jobs, |(m, i)| invoke(ctx, &items, &[*i], *m, &shared, home, None, &[]));
+        let singles: Vec<Vec<RunOut>> = (0..MODES.len()).map(|m| singles_flat[m * n..(m + 1) * n].to_vec()).collect();
+        // every ordered pair, and (thorough: every; quick: six seeded) permutation of all four
+        let mut lines: Vec<Vec<usize>> = vec![];
+        for a in 0..n {
+            for b in 0..n {
+                if a != b {
+                    lines.push(vec![a, b]);
+                }
+            }
+        }
+        let perms = permutations(n);
+        if thorough {
+            lines.extend(perms);
+        } else {
+            for _ in 0..6 {
+                lines.push(rng.pick(&perms).clone());
+            }
+        }
+        let joint_jobs: Vec<(usize, usize)> = (0..MODES.len()).flat_map(|m| (0..lines.len()).map(move |l| (m, l))).collect();
+        let joints: Vec<RunOut> = par_map(&joint_jobs, |(m, l)| invoke(ctx, &items, &lines[*l], *m, &shared, home, None, &[]));
+        for ((m, l), j) in joint_jobs.iter().zip(joints.iter()) {
+            if j.timed_out || singles[*m].iter().any(|r| r.timed_out) {
+                o.count("timeout");
+                continue;
+            }
+            direct += 1;
+            distinct += 1;
+            o.count(&format!("nested-directories:{}", MODES[*m].0));
+            for (sig, detail) in compare(*m, &lines[*l], &singles[*m], j, &items) {
+                let names: Vec<String> = lines[*l].iter().map(|i| items[*i].rel()).collect();
+                fail(o, &sig, format!("{} [nested directories with their own configuration files, mode {}, command line {:?}] {}", sig, MODES[*m].0, names, detail), json!({"set": set_json(&items), "mode": MODES[*m].0, "command_line": names}));
             }
         }
         let _ = std::fs::remove_dir_all(&shared);
@@ -767,6 +840,11 @@ pub fn run(tier: &str, seed: u64, out: &Path) -> i32 {
     let (d2, n2) = overlapping(&mut o, &mut rng, &ctx, &home, thorough);
     direct += d2;
     distinct += n2;
+
+    // ---- inputs in nested directories with their own configuration files
+    let (d3, n3) = nested(&mut o, &mut rng, &ctx, &home, thorough);
+    direct += d3;
+    distinct += n3;
 
     // ---- enumerated probes (seed-independent)
     // F3: two overrides on one --config: applied in the iteration order of a HashMap
